@@ -577,7 +577,8 @@ def embedded_family(case, spec, ref_world, stats):
     failing = {step['ev'] for steps in spec['procs'].values() for step in steps
                if step['op'] == 'fail'}
     # a native waiter *handles* a failure (defuses the event), which would change the program
-    failing |= {target for source, target in spec.get('chains', ()) if source in failing}
+    for _ in spec.get('chains', ()):        # chains of chains: transitive
+        failing |= {target for source, target in spec.get('chains', ()) if source in failing}
     natives = [name for name in spec['events'] if name not in failing]
     world, outcome, result, now, sess, native_log = run_usim(spec, embedded=True, natives=natives)
     stats['embedded_runs'] += 1
@@ -612,9 +613,10 @@ def embedded_family(case, spec, ref_world, stats):
             elif entry[0] == 'failed-event':
                 step = spec['procs'][name][index]
                 triggered[entry[1]] = (when, ('exception', step['tag']))
-    for source, target in spec.get('chains', ()):
-        if source in triggered:
-            triggered[target] = triggered[source]    # chained: same outcome, same time step
+    for _ in spec.get('chains', ()):
+        for source, target in spec.get('chains', ()):
+            if source in triggered:
+                triggered[target] = triggered[source]    # chained: same outcome, same time step
     seen = {name: (when, what) for name, when, what in native_log}
     for name, expected in triggered.items():
         if name not in natives:
